@@ -108,6 +108,21 @@ def tie_and_plans(cases):
     return io[1::2], mo[1::2], plans
 
 
+def leg_a_suspects(rng, n, want=None, limit=6):
+    """breadth without compiling: n more generated cases are only compared byte for byte with the model (Leg A); those that
+    disagree are returned so that the caller compiles and runs exactly them in its search for a failing input"""
+    extra = usable_cases(rng, n, want=want, maxtries=40 * n)
+    if not extra:
+        return [], 0
+    mixed = []
+    for c in extra:
+        mixed.append(sibling(c))
+        mixed.append(c)
+    io, mo = BC.run_builds(mixed)
+    sus = [c for c, i, m in zip(extra, io[1::2], mo[1::2]) if tie_problem(i, m)]
+    return sus[:limit], len(extra)
+
+
 def tie_problem(i, m):
     if i[0] != m[0]:
         return f'implementation {i[0]} ({str(i[1])[:80]}) vs model {m[0]} ({str(m[1])[:80]})'
